@@ -31,7 +31,7 @@ func init() {
 	Register(&PropDef{
 		ID:    "C12",
 		Title: "A pooled message has one owner at a time",
-		Rule: "the workloads of C03 (requests), C04 (block-wise between two real endpoints, with and without faults), C05 (de-duplication), C06 (retransmission), C08 (observe) and C11 (nested handlers) run with a message pool of capacity 1, 2 or 1024 and the life-cycle tracker armed: release hook (before the capacity test), poison on put, poison check on acquire, application holds (response from return until release two phases later, request inside its handler, notification inside its callback); POOL/middleware: the application wraps the handler chain (WithProcessReceivedMessageFunc) with post-processing that the simulator parks, and releases responses the moment it gets them; " +
+		Rule: "the workloads of C03 (requests), C04 (block-wise between two real endpoints, with and without faults), C05 (de-duplication), C06 (retransmission), C08 (observe) and C11 (nested handlers) run with a message pool of capacity 1, 2 or 1024 and the life-cycle tracker armed: release hook (before the capacity test), poison on put, poison check on acquire, application holds (response from return until release two phases later, request inside its handler, notification inside its callback); POOL/late-block: a duplicated block of a block-wise response reaches a second reader loop while the final block is being processed by the first; POOL/middleware: the application wraps the handler chain (WithProcessReceivedMessageFunc) with post-processing that the simulator parks, and releases responses the moment it gets them; " +
 			"non-trivial = at least one released object was handed out again during the run; distinct = distinct event-log hash",
 		Scenarios: []Scenario{
 			host("C03", c03Run),
@@ -48,10 +48,11 @@ func init() {
 			host("middleware", c12Middleware),
 			host("upload-reader", c12UploadReader),
 			host("late-token-handler", c12LateTokenHandler),
+			host("late-block", c12LateBlock),
 		},
 		Quick:    200000,
 		Thorough: 3000000,
-		Require:  []string{"upload.contextEndedDuringLibraryRead", "pool.objectRecycled", "middleware.resumedAfterAppWasDone", "transfer.multiBlock", "retransmission", "latehandler.resumedAfterRequestWasReleased"},
+		Require:  []string{"upload.contextEndedDuringLibraryRead", "pool.objectRecycled", "middleware.resumedAfterAppWasDone", "transfer.multiBlock", "retransmission", "latehandler.resumedAfterRequestWasReleased", "lateblock.copyWaitsForTheGuard"},
 		Assume: []string{
 			"read-after-release is detected by its effects (poison on the wire or in a hand-over), not by intercepting every accessor; data races are outside a cooperative simulation",
 			"GC is off during a run and workers use one P, so sync.Pool hands objects back in LIFO order: the object released last is acquired next",
